@@ -8,7 +8,7 @@ SPEC = dict(
     lean_targets=["SwayVerif.Props.C16"], audit="SwayVerif/Audit/C16.lean",
     theorems=["lex_total", "lex_no_panic", "lex_outcome", "lex_spans_in_bounds", "lex_spans_on_char_boundaries",
               "lex_spans_ordered", "span_join_in_bounds", "C16_prop_of_model", "C16_partial"],
-    steps=[dict(bin="sv_c16", area="c16", n_quick=6000, n_thorough=160000, corpus="corpus/c16.txt",
+    steps=[dict(bin="sv_c16", area="c16", n_quick=9000, n_thorough=150000, corpus="corpus/c16.txt",
                 args=["--window", "16384"], dist_keys=DIST, timeout=3000,
                 nontrivial=lambda case, impl, kv: kv.get("kind") == "full" and kv.get("src") not in ("file", "filewin"))],
     custom=[],
